@@ -240,6 +240,9 @@ def pool_suite(tier, cfgs, extra="", fams=("member",), need=()):
                     ("array", "fixed", "--ns 16 --bs 112 --L 6 --B 2 --arrays 2,3", ("alloc_oom",)),
                     ("small", "fixed", "--ns 1 --bs 304 --L 3 --B 2 --bulk 254 --arena 4096 --snap 1", ("alloc_oom", "bulk_allocated")),
                     ("small", "constant", "--ns 1 --bs 304 --L 2 --B 2 --bulk 254 --arena 4096 --snap 1 --max_states 120000", ("grew", "bulk_allocated")),
+                    # non-monotonic block addresses (third block between the first two), three chunks of a small-node pool
+                    ("small", "constant", "--ns 1 --bs 304 --L 3 --B 3 --bulk 254 --bulk_rounds 3 --arena 2048 --place alt --snap 1 --destroy 0 --max_states 100000", ("grew", "bulk_allocated")),
+                    ("array", "constant", "--ns 16 --bs 80 --L 4 --B 3 --arrays 2 --place alt", ("grew",)),
                 ]
                 if not q:
                     shapes += [
@@ -256,6 +259,9 @@ def pool_suite(tier, cfgs, extra="", fams=("member",), need=()):
                         ("small", "growing", "--ns 1 --bs 304 --L 3 --B 3 --bulk 254 --arena 4096 --snap 1", ("grew", "bulk_allocated")),
                         ("small", "fixed", "--ns 1 --bs 304 --L 4 --B 2 --bulk 253 --arena 4096 --snap 1", ("alloc_oom", "bulk_allocated")),
                         ("small", "constant", "--ns 1 --bs 304 --L 3 --B 2 --bulk 253 --arena 4096 --snap 1", ("grew", "bulk_allocated")),
+                        ("small", "constant", "--ns 1 --bs 304 --L 3 --B 3 --bulk 254 --bulk_rounds 3 --arena 2048 --place alt --snap 1 --max_states 1500000", ("grew", "bulk_allocated")),
+                        ("array", "constant", "--ns 16 --bs 80 --L 5 --B 3 --arrays 2,3 --place alt", ("grew",)),
+                        ("node", "constant", "--ns 16 --bs 80 --L 4 --B 3 --arrays 2 --place alt", ("grew",)),
                     ]
             elif fam == "traits":
                 shapes = [
@@ -341,6 +347,7 @@ def stack_suite(tier, cfgs, extra="", fams=("member",), need=()):
                     ("growing", "--bs 80 --reqs 13x16,40x1 --L 4 --B 3 --markers 3", ("unwound_across_blocks",)),
                     ("constant", "--bs 64 --reqs 40x1,8x8,1x1 --L 5 --B 4 --markers 3", ("unwound_across_blocks",)),
                     ("constant", "--bs 96 --reqs 24x32,8x8 --L 4 --B 3 --markers 2 --objhi 1", ("unwound_across_blocks",)),
+                    ("constant", "--bs 64 --reqs 40x1,8x8 --L 4 --B 4 --markers 2 --place alt", ("unwound_across_blocks",)),
                     ("fixed", "--bs 128 --reqs 13x1,8x16,3x64 --L 6 --B 2 --markers 2", ("alloc_oom",)),
                 ]
             if q and cfg != cfgs[0]:
@@ -448,6 +455,8 @@ def check_C03(prop, tier, only):
 def check_C04(prop, tier, only):
     c = cfgs_for(tier)
     jobs = pool_suite(tier, c, extra="--tries 1", fams=("member", "traits")) + coll_suite(tier, c, extra="--tries 1", fams=("member", "traits"))
+    for j in jobs:
+        j["own"] = ["M-noreport"]  # a valid release that the pool rejects as invalid is memory that does not become available again
     return run_explore_check(prop, tier, jobs, only, note=NOTE_BFS +
                              "M-capacity: free nodes + nodes held by live allocations never decreases and is constant without growth; "
                              "M-nogrow: a single node request never grows while its list holds a node; "
